@@ -333,6 +333,17 @@ func ruleNilGuard(c *Ctx) {
 				return true
 			}
 			inner = ast.Unparen(inner)
+			// a local bound once to an optional field stands for that field
+			if lv, isV := identObj(info, inner).(*types.Var); isV && !lv.IsField() && lv.Parent() != nil && lv.Parent() != f.Pkg.Types.Scope() {
+				if d := p.singleDef(f, lv); d != nil {
+					if fv := SelField(info, ast.Unparen(d)); fv != nil && optional[fv] != "" {
+						if _, isIface := fv.Type().Underlying().(*types.Interface); !isIface {
+							sites = append(sites, site{inner, x, fv})
+						}
+						return true
+					}
+				}
+			}
 			if fv := SelField(info, inner); fv != nil && optional[fv] != "" {
 				if _, isIface := fv.Type().Underlying().(*types.Interface); isIface {
 					if _, isCall := x.(*ast.CallExpr); isCall {
